@@ -197,6 +197,12 @@ class GenSuite(Suite):
                 acts.append("%s%d" % (a, rng.randint(0, 3 if rng.random() < 0.8 else 7)))
             else:
                 acts.append(a)
+        if not any(a[0] == "p" for a in acts) and rng.random() < 0.35:
+            # co_await cocls::pause() between the other statements (an awaitable that resumes the body through the coroutine queue
+            # of its thread). Not together with p<k>: the harness event resumes the body as a foreign awaitable would, by a bare
+            # resume() outside coroutine mode, where pause() has no queue to work with
+            for _ in range(rng.choice([1, 1, 2, 3])):
+                acts.insert(rng.randint(0, len(acts)), "q")
         r = rng.random()
         if r < 0.22:
             acts.insert(rng.randint(0, len(acts)), "t")
@@ -870,7 +876,8 @@ class C13(Spec):
     technique = ("Lean 4 invariant proof (induction over all body scripts and all consumer operation lists) + differential "
                  "correspondence with the real generator.h / iterator.h")
     level_text = ("Lean 4 theorems over an executable model of generator::promise_type (fields _caller/_internal, _arg, _ret, _exp, _done, "
-                  "_block, _awaiting), the body as a script interpreter, and every access style as consumer operations (sync access split at "
+                  "_block, _awaiting), the body as a script interpreter (yield, yield nullptr, ready / pending awaitables, co_await pause(), "
+                  "locals, throw, return), and every access style as consumer operations (sync access split at "
                   "its blocking point so completions by another thread interleave; co_await, subscribe(callback) incl. re-entrant re-arming, "
                   "future, iterators): sequence/end/exception position, argument delivery, no lost wake-up, locals destroyed once - for every "
                   "script and every operation list; plus a micro-step model of the two-thread hand-over at a co_yield (notify last). The model "
@@ -888,7 +895,10 @@ class C13(Spec):
                     "C++ coroutine frame semantics (locals destroyed on frame destruction), cocls::future/promise (C01)"]
     assumptions = ["one consumer at a time: no access is started while another one is outstanding (the 'Generator is busy' assert)",
                    "the generator is not destroyed while an access is outstanding",
-                   "value() is not called while an asynchronous access is outstanding"]
+                   "value() is not called while an asynchronous access is outstanding",
+                   "the body runs in coroutine mode whenever the library resumes it (every access installs a queue if there is none: "
+                   "resume_in_queue); a foreign awaitable that resumes the body by a bare resume() outside coroutine mode (the harness "
+                   "event p<k>) is not combined with co_await pause() in generated bodies; consumer coroutines run in coroutine mode"]
 
     def suites(self):
         return [GenSuite(n) for n in PROFILES] + [ExhSuite(i, 4) for i in range(4)] + [BatonSuite()]
